@@ -433,6 +433,10 @@ func (gen *Generator) GenerateCond(args []Sexp) error {
 	// we generate the cond bottom up, so i counts down.
 	for i := len(args)/2 - 1; i >= 0; i-- {
 		subgen.Reset()
+		// the predicate is not in tail position, but it does run inside the
+		// enclosing scopes: a break or continue in it must pop them.
+		subgen.scopes = gen.scopes
+		subgen.funcname = gen.funcname
 		err := subgen.Generate(args[2*i])
 		if err != nil {
 			return err
